@@ -208,4 +208,49 @@ theorem C10_auth_nonce_length_old (A : AEAD) (b : Bytes) (d : Decoded) (h : d.no
     authenticateG true A b (zeros 32) d = .err .nonceLen := by
   simp [authenticateG, keyOk, zeros, openC, h, bind, Res.bind]
 
+/-! ### earlier results stay what they were (no shared state between calls) -/
+
+/-- **calls_independent.** In a sequence of `Decrypt` / `Decode` / `ProcessRequest` /
+    `ProcessResponse` calls whose results are all looked at after the last call, the i-th result
+    is the result of that call alone: it depends only on that call's own arguments (for `Decrypt`:
+    key and cookie), not on the calls before or after it. (The model is a pure function, so this is
+    what the correspondence op `seq.run` compares the real code against: there, results are
+    rendered only after the last call.) -/
+theorem C10_calls_independent (A : AEAD) (cs : List Call) (i : Nat) :
+    (runCalls A cs)[i]? = (cs[i]?).map (Call.run A) := by
+  simp [runCalls]
+
+/-- …in particular inserting or removing other calls around a call does not change its result. -/
+theorem C10_calls_frame (A : AEAD) (pre post pre' post' : List Call) (c : Call) :
+    (runCalls A (pre ++ c :: post))[pre.length]? = (runCalls A (pre' ++ c :: post'))[pre'.length]? := by
+  simp [runCalls]
+
+/-- **cookie_roundtrip_interleaved.** For every lawful AEAD: the cookies of two associations
+    (sealed under server keys `keyA`, `keyB`, which may be the same key) opened alternately —
+    A, B, A — yield A's, B's and again A's sealed algorithm and keys, all still intact after the
+    last call. -/
+theorem C10_cookie_roundtrip_interleaved (A : AEAD) (hl : A.Lawful) (cA cB : Triple)
+    (keyA keyB nonceA nonceB : Bytes) (idA idB : Nat)
+    (hkA : keyOk keyA = true) (hnA : nonceA.length = 16)
+    (hA1 : cA.num < 65536) (hA2 : cA.x.length < 65536) (hA3 : cA.y.length < 65536)
+    (hA4 : (A.sealF keyA nonceA (scEncode cA) none).length < 65536)
+    (hkB : keyOk keyB = true) (hnB : nonceB.length = 16)
+    (hB1 : cB.num < 65536) (hB2 : cB.x.length < 65536) (hB3 : cB.y.length < 65536)
+    (hB4 : (A.sealF keyB nonceB (scEncode cB) none).length < 65536) :
+    ∃ ecA ecB, encryptCookie A cA keyA idA nonceA = .ok ecA ∧ encryptCookie A cB keyB idB nonceB = .ok ecB ∧
+      runCalls A [.decrypt (ecEncode ecA) keyA, .decrypt (ecEncode ecB) keyB, .decrypt (ecEncode ecA) keyA] =
+        [.cookie (.ok cA), .cookie (.ok cB), .cookie (.ok cA)] := by
+  obtain ⟨ecA, eA, dA, oA⟩ := C10_cookie_roundtrip A hl cA keyA nonceA idA hkA hnA hA1 hA2 hA3 hA4
+  obtain ⟨ecB, eB, dB, oB⟩ := C10_cookie_roundtrip A hl cB keyB nonceB idB hkB hnB hB1 hB2 hB3 hB4
+  refine ⟨ecA, ecB, eA, eB, ?_⟩
+  simp [runCalls, Call.run, dA, dB, oA, oB, bind, Res.bind]
+
+set_option maxRecDepth 20000 in
+/-- the hypotheses are met by two associations of the project's shape under one server key -/
+example :
+    runCalls toyAEAD [.decrypt (ecEncode ⟨1, zeros 16, scEncode ⟨15, zeros 32, List.replicate 32 1⟩ ++ zeros 16⟩) (zeros 32),
+      .decrypt (ecEncode ⟨1, zeros 16, scEncode ⟨15, List.replicate 32 2, List.replicate 32 3⟩ ++ zeros 16⟩) (zeros 32)] =
+    [.cookie (.ok ⟨15, zeros 32, List.replicate 32 1⟩), .cookie (.ok ⟨15, List.replicate 32 2, List.replicate 32 3⟩)] := by
+  decide
+
 end ScionTime.C10
